@@ -15,12 +15,12 @@ CLAIMED = {
    note="one open known finding (nil pointer field without omitempty decodes to a pointer to the zero value); fixed type catalogue; reflect is a shim validated by native replay.",
    ref="6 C02"),
  "C03": dict(
-   text="Totality of the byte-level decoders: every byte string of length 0..7 (quick) / 0..10 (thorough) with every tag byte into RawMessage (DecoderReader and plain reader), StringifiedMessage.UnmarshalNBT, RawMessage.String, dynbt.Value (0..9/11 bytes, fresh and reused receiver) and the typed decoder (any, map, a 25-field struct, []int32, []int64, []byte, [2]int32, []any through the reflect shim): no reachable Go panic on any path (every index, slice, make, nil, division site is a solver query), no loop without consuming input (instruction budget), and - classified by the independent reference - a strict prefix of a value, a negative declared length and an unknown tag id all yield an error. Nothing is asserted for inputs the reference cannot classify.",
+   text="Totality of the byte-level decoders: every byte string of length 0..7 (quick) / 0..9 (thorough) with every tag byte into RawMessage (DecoderReader and plain reader), StringifiedMessage.UnmarshalNBT, RawMessage.String, dynbt.Value (0..9/10 bytes, fresh and reused receiver) and the typed decoder (any, map, a 25-field struct, []int32, []int64, []byte, [2]int32, []any through the reflect shim): no reachable Go panic on any path (every index, slice, make, nil, division site is a solver query), no loop without consuming input (instruction budget), and - classified by the independent reference - a strict prefix of a value, a negative declared length and an unknown tag id all yield an error. Nothing is asserted for inputs the reference cannot classify.",
    note="decimal formatting of |v| >= 10^5 and float formatting are placeholders; allocation size is not a panic.",
    ref="6 C03"),
  "C04": dict(
-   text="Text -> binary: every text of 0..5 (quick) / 0..7 (thorough) bytes over all 256 byte values through StringifiedMessage.MarshalNBT (the real scanner, parseLiteral, strconv.ParseInt executed symbolically): no reachable panic, and whenever the parser accepts, the bytes produced are exactly one complete NBT value (independent grammar reference) of the tag type TagType() announces - never a truncated or mistyped document with a nil error. Agreement of the content with an independent SNBT reading, the 'malformed => error' clause and the binary->text->binary round trip are not covered yet.",
-   note="ParseFloat is a stub (any value, no error): float literals are checked for tag type and width only; texts longer than the bound and the nesting limit are outside.",
+   text="Text -> binary through the real scanner/parser (strconv.ParseInt executed symbolically): (a) every text of 0..5 (quick) / 0..7 bytes over all 256 byte values: no panic, and an accepted text yields exactly one complete NBT value (independent grammar reference) of the announced TagType; (b) the same texts and structured texts (quoted keys and values with arbitrary content incl. escapes, typed arrays, nested containers, arbitrary separators) against an independent three-valued SNBT reader: where that reader is certain the text is a value, an accepting parser produced exactly that tag and payload; where it is certain the text is malformed (empty, unbalanced or mismatched brackets, missing ':', stray delimiter, unterminated quote, non-space after the top-level value) the parser returned an error. Binary -> text -> binary: generated documents without floats (2-3 value nodes, all integer tags, strings and keys of arbitrary bytes incl. non-ASCII and number-like, typed arrays, lists, compounds; integers of 2 (quick) / 5 decimal digits) convert to text and parse back to the identical bytes and tag type.",
+   note="ParseFloat/FormatFloat are placeholders: float literals are checked for tag type and width only; decimal formatting is an exact model up to 10^5; whether every text of the grammar must be accepted is not asserted (only what the writer emits, via the round trip); nesting limit outside.",
    ref="6 C04"),
  "C05": dict(
    text="All 2^32 VarInt and 2^64 VarLong values (full width, no value bound): encoder bytes/count/Len equal a textbook LEB128 reference, decode(encode(v))==v with exact consumption through both reader paths, and every 12-byte buffer is decoded with at most 5/10 bytes consumed and an error on longer continuation runs. Decided per path by z3; loops unwound with an unwinding check.",
@@ -31,7 +31,7 @@ CLAIMED = {
    note="bounded lengths; NBTField not covered; reflect is a shim validated by native replay; stubs listed in evidence.",
    ref="6 C06"),
  "C07": dict(
-   text="Pack/UnPack with id full int32, threshold in {-1, 0, any positive int (symbolic)}, payloads 0..3 bytes quick / 0..8 plus concrete boundary lengths 126,127,128,16383 thorough: unpack(pack(p))==p with a reused receiver and exactly one frame consumed, two frames in one stream, emitted frame accepted by an independent frame reader (lengths, data-length rule, zlib content == id++payload), and rejection of negative / oversize / below-threshold declared sizes for all int32 values of the length fields. zlib is a lossless model codec inside the engine (real zlib in native replay).",
+   text="Pack/UnPack with id full int32, threshold in {-1, 0, any positive int (symbolic)}, payloads 0..3 bytes quick / 0..8 plus concrete boundary lengths 126,127,128,16383 thorough: unpack(pack(p))==p with a reused receiver and exactly one frame consumed, two frames in one stream, emitted frame accepted by an independent frame reader (lengths, data-length rule, zlib content == id++payload), and rejection of negative / oversize / below-threshold declared sizes for all int32 values of the length fields. zlib is a lossless model codec inside the engine (real zlib in native replay). Conn level: two Conn ends with the same SetThreshold exchange three packets intact in both directions (pooled buffers always reused).",
    note="deflate itself is trusted and modelled as a stored codec, so the compressed size's own VarInt boundary and real compression ratios are outside the claim; sync.Pool modelled as nondeterministic reuse.",
    ref="6 C07"),
  "C08": dict(
@@ -40,7 +40,7 @@ CLAIMED = {
    ref="6 C08"),
  "C09": dict(
    text="For every byte string of length 0..5 (quick) / 0..9 (thorough) and each of 14 stream decoders (fixed-width fields, VarInt/VarLong, Position, UUID, String, ByteArray, BitSet, FixedBitSet, Option, uncompressed frame): the result under 1/2/3-byte fragmentation equals the contiguous read (value, count, error-ness, residual); a reader failing or ending at every offset before completion yields an error; a writer failing after k bytes makes WriteTo/Pack fail for every k.",
-   note="readers returning (0,nil) or (n>0,err) are outside; NBT and RCON streams not covered yet.",
+   note="readers returning (0,nil) or (n>0,err) are outside. Also: compressed frames under fragmentation and under truncation/failure at every offset; RawMessage, StringifiedMessage and dynbt.Value decoding (0..7/9 bytes) under 1-2 byte reads and failure at every offset; RCON ReadPacket under 1..3 byte reads, truncation/failure at every offset and WritePacket with a writer failing after k bytes (binary.Read modelled with io.ReadFull semantics).",
    ref="6 C09"),
  "C11": dict(
    text="For every b=1..32 and n in {1,vpl-1,vpl,vpl+1,2vpl+1} (thorough also 64,130): one inductive step from an arbitrary state (arbitrary raw longs incl. padding bits) with symbolic i, j, v: Get/Set/Swap behave as an array, other indices untouched, Raw() follows the >=1.16 packing; out-of-range index/value panics leave the state unchanged; b=0; size rules, constructor refusal and Fix; wire round trip into fresh/used storage.",
@@ -52,10 +52,10 @@ CLAIMED = {
    ref="6 C12"),
  "C10": dict(
    text="CFB8 against a byte-at-a-time reference with the block cipher as an uninterpreted function E (so the result holds for every 16-byte block cipher and key, AES included), 16 symbolic IV bytes, symbolic message of total length T in {0,1,2,15,16,17,31..35,48,49} (quick) / every T<=50 (thorough), split over 2 (quick) / 3 successive XORKeyStream calls at every split point, each call in place, into a disjoint buffer allocated before or after the source, or into a larger buffer; encrypt, decrypt and decrypt(encrypt(m))==m. The unsafe.Pointer aliasing tests are evaluated on synthetic addresses.",
-   note="partially overlapping dst/src excluded (cipher.Stream contract); messages > 50 bytes outside; the encrypted Conn clause is not covered yet; native replay uses AES-128 with a fixed key for E.",
+   note="partially overlapping dst/src excluded (cipher.Stream contract); messages > 50 bytes outside; native replay uses AES-128 with a fixed key for E. Encrypted Conn: both ends SetCipher over an in-memory duplex through the real cipher.StreamReader/Writer, thresholds -1/0/2, three packets (two one way, one back) with symbolic one-byte ids and payloads of 0..3 bytes: delivered intact and in order.",
    ref="6 C10"),
  "C13": dict(
-   text="Partial: PackXZ/UnpackXZ bijection on 0..15^2 with refusal outside (all int pairs); Section.SetBlock changes BlockCount by exactly [new non-air]-[old non-air] from a state reached by two arbitrary SetBlocks, with block.IsAir modelled exactly from the current registry (bounds + set of air ids), which with C12's array semantics gives the counter invariant by induction; ChunkToSave(ChunkFromSave(c)) keeps each of the six height maps (arbitrary raw longs) under its own name and the status, for chunks without sections; network form of a one-section chunk with 0..2 symbolic SetBlocks at chosen positions, an optional biome change, a symbolic height-map value and 0..1 block entity: read back into EmptyChunk(1) with identical blocks at the probed positions, block count, biomes, height maps, block entity, and exactly the bytes written consumed (through the reflect shim for the NBT height maps, Ary and NBTField).",
+   text="Partial: PackXZ/UnpackXZ bijection on 0..15^2 with refusal outside (all int pairs); Section.SetBlock changes BlockCount by exactly [new non-air]-[old non-air] from a state reached by two arbitrary SetBlocks, with block.IsAir modelled exactly from the current registry (bounds + set of air ids), which with C12's array semantics gives the counter invariant by induction; ChunkToSave(ChunkFromSave(c)) keeps each of the six height maps (arbitrary raw longs) under its own name and the status, for chunks without sections; network form of a one-section chunk with 0..1 (quick) / 0..2 symbolic SetBlocks at chosen positions, an optional biome change, a symbolic height-map value and 0..1 block entity: read back into EmptyChunk(1) with identical blocks at the probed positions, block count, biomes, height maps, block entity, and exactly the bytes written consumed (through the reflect shim for the NBT height maps, Ary and NBTField).",
    note="the block-state <-> (name, properties) bijection over the 26k registry states, biome names, 2..24 sections, light arrays and save-form block/biome palettes are outside (registry built by init from embedded gzip: not encodable); positions probed are fixed sets.",
    ref="6 C13"),
  "C14": dict(
